@@ -88,6 +88,12 @@ class SrcDom(ValueDomain):
                 self.bad.append((elem, "the 64-bit header word `%s` is stored into the signed field %s without an "
                                  "upper bound: a value >= 2^63 becomes negative" % (rk[2], key_str(key)), key_str(key)))
                 return st
+            if width == 32 and lt.get("k") == "int" and lt.get("bits", 64) <= 32 and key is not None and key[0] != "v":
+                fld = key[2] if key[0] == "m" else None
+                if fld not in LATER:
+                    self.bad.append((elem, "the 32-bit header word `%s` is stored into the signed field %s without an "
+                                     "upper bound: a value >= 2^31 becomes negative" % (rk[2], key_str(key)), key_str(key)))
+                return st
             if width == 32 or lt.get("k") == "uint":
                 if key is not None and key[0] == "v" and lt.get("bits", 64) < width:
                     self.bad.append((elem, "header word `%s` narrowed to %d bits unchecked" % (rk[2], lt.get("bits")),
@@ -135,15 +141,29 @@ class SrcDom(ValueDomain):
         op = c.get("op")
         a, b = strip(c["a"]), strip(c["b"])
         ka, kb = lvalue_key(a), lvalue_key(b)
+
+        def reinterpreted(n):
+            """is the word converted to a signed or narrower type before it is compared?  Then the test bounds the
+            converted value: (int)x < n lets every x >= 2^31 through as a negative number."""
+            n = strip_pre(n)
+            while isinstance(n, dict) and n.get("k") in ("cast", "paren"):
+                if n.get("k") == "cast" and n.get("ck") == "IntegralCast":
+                    ft, tt = self.fn.type(n.get("ft")), self.fn.type(n.get("t"))
+                    if ft.get("k") == "uint" and (tt.get("k") == "int" and tt.get("bits", 64) <= ft.get("bits", 64)
+                                                  or tt.get("bits", 64) < ft.get("bits", 64)):
+                        return True
+                n = strip_pre(n.get("e"))
+            return False
+        ra, rb = reinterpreted(c["a"]), reinterpreted(c["b"])
         res = []
         for succ, s2 in out:
             truth = succ == blk.succs[0]
             if blk.succs[0] != blk.succs[1]:
                 # raw word bounded above on the edge where  x <= LIMIT  holds
-                for x, kx, other, o in ((a, ka, b, op), (b, kb, a, {"<": ">", ">": "<", "<=": ">=", ">=": "<="}.get(op, op))):
+                for x, kx, other, o, reint in ((a, ka, b, op, ra), (b, kb, a, {"<": ">", ">": "<", "<=": ">=", ">=": "<="}.get(op, op), rb)):
                     if kx is None:
                         continue
-                    if s2.has(("$raw", kx)):
+                    if s2.has(("$raw", kx)) and not reint:
                         bounded = (o in (">", ">=") and not truth) or (o in ("<", "<=") and truth)
                         if bounded and (const_value(other) is not None or lvalue_key(other) is not None):
                             lim = const_value(other)
@@ -321,6 +341,9 @@ def run(ctx):
     check_hints(ctx, prog)
     r5.run_r5(ctx, prog)
     ctx.min_instances("R5.queue", 30)
+    from rules import r10type
+    ctx.rule("R10.typerange", "hdr_get_nc_type accepts an external type code exactly when the format version allows it")
+    r10type.check(ctx, ctx.need_fn(prog, "hdr_get_nc_type"), "R10.typerange", "ncmpio")
     # ---- no double release / use after release, across function boundaries ----------------------------
     from rules import r3free
     ctx.rule("R3.dfree", "no object is released twice or dereferenced after release on any path (symbolic pointer values, "
